@@ -534,7 +534,9 @@ def _run_task(c, cid, st, tier, timeout_ms, both, seed, t0):
             touched.update({(t["file"], t["qualname"]): t for t in r.pop("touched", [])})
             if r["failed"]:
                 native["failed"].append({"inputs": vals, "failed": r["failed"]})
-            if r.get("error") and not r["error"].startswith("precondition not met"):
+            if r.get("error") and c.level == "P" and ("Unsupported" in r["error"] or "ShapeChanged" in r["error"]):
+                obls.append(Obligation(f"{cid}::modular-proof-applies", "skipped", "-", 0.0, f"native twin: {r['error']}", None, "", "shape").to_json())
+            elif r.get("error") and not r["error"].startswith("precondition not met"):
                 # a native run that did not finish (time limit, unsupported construct) decided nothing: say so instead of counting it as a pass
                 obls.append(Obligation(f"{cid}::native-run-completed", "undecided", "-", 0.0, f"{r['error']} on inputs {vals}", kind="subset").to_json())
             if _ABORT[0]:
@@ -628,6 +630,9 @@ class GhostSet:
 
     def add(self, x):
         self.added.append(x)
+
+    def update(self, xs):
+        self.added.extend(list(xs))
 
     def __getattr__(self, a):
         raise GhostUnsupported(f"operation .{a} on the opaque set {self._name}")
